@@ -200,6 +200,7 @@ PROPS = {
         "obligations": ob("UcantoModel.Props.C12", "Car.C12_integrity", "Car.C12_integrity_decode", "Car.C12_mismatch_is_error", "Car.next_none_iff", "Car.parseCid_split", "Car.next_block_valid")
                        + ob("UcantoModel.Props.C12Roundtrip", "Car.C12_roundtrip", "Car.C12_version", "Car.next_section", "Car.blocks_sections", "Car.decodeHeader_encodeHeader", "Car.readCborHead_cborHead")
                        + ob("UcantoModel.Props.C12Trunc", "Car.C12_truncated", "Car.C12_cut_at_boundary", "Car.C12_truncated_header", "Car.next_truncated", "Car.blocks_truncated", "Car.readStd_trunc", "Car.C12_oversize_is_error", "Car.C12_blocks_stop_at_oversize", "Car.C12_zero_section_is_error", "Car.C12_blocks_stop_at_zero")
+                       + ob("UcantoModel.Props.C12Digest", "Car.overlong_digest_mismatch", "Car.truncated_digest_iff", "Car.identity_digest_iff", "Car.unknown_function_mismatch")
                        + ob("UcantoModel.Lemmas.VarintLemmas", "Varint.readStd_encode", "Varint.readMf_encode", "Varint.readMf_suffix", "Varint.readStd_suffix"),
         "mismatch_is_violation": False,
         "rule": "archives: 0-3 roots, 0-6 blocks (quick; 0-24 thorough) of 0-320 bytes with CIDv1 raw/dag-cbor/multi-byte codec, CIDv0, identity, truncated digests, duplicate CIDs; per archive one round-trip case, one case holding the decode outcome at every truncation point, three cases holding the outcome of every single-byte corruption; plus splices / double corruptions / garbage. non-trivial: archive with at least one block / non-empty input. distinct: hash of (op,args)",
